@@ -15,7 +15,7 @@ BUILD = os.path.join(VERIF, "build")
 
 TUNE = ["-DURCU_VERIF", "-DURCU_VERIF_RCU_QS_ACTIVE_ATTEMPTS=2", "-DURCU_VERIF_URCU_WAIT_ATTEMPTS=2",
         "-DURCU_VERIF_MIN_PARTITION_PER_THREAD_ORDER=1", "-DURCU_VERIF_COUNT_COMMIT_ORDER=1",
-        "-DURCU_VERIF_DEFER_QUEUE_SIZE=8", "-DURCU_VERIF_INIT_READER_COUNT=2"]
+        "-DURCU_VERIF_DEFER_QUEUE_SIZE=8", "-DURCU_VERIF_INIT_READER_COUNT=1"]
 INSTR = ["gcc", "-U__SANITIZE_THREAD__", "-O1", "-g", "-fsanitize=thread",
          "--param", "tsan-instrument-func-entry-exit=0", "--param", "tsan-distinguish-volatile=1",
          "-DCONFIG_RCU_USE_ATOMIC_BUILTINS", "-D_GNU_SOURCE", "-fno-pie",
